@@ -15,6 +15,11 @@ NOT_DECIDED = "the classification of every term of every ontology (depends on C0
 ONT = "ontology::Ontology::"
 
 
+def error_blocks_(b):
+    from engines import error_blocks
+    return error_blocks(b)
+
+
 def lookup_consts(b, atoms, op=None, pvn=None):
     """constants used as key of the Ontology::hpo lookups a value derives from.  With `op`: read off the receiver chain of that operand
     (`root.children_ids().iter()` <- `root` <- `self.hpo(1)?`), which stays exact when whole-`self` provenance smears"""
@@ -202,6 +207,24 @@ def run(ck, prog, ctx):
                 # ... or re-computed by private Builder code of its own (one pass over the children of the root terms that yields both groups)
                 from engines import private_scope as _psc
                 own_ = [x for x in _psc(prog, bd) if x.id != bd.id and x.kind in ("Fn", "AssocFn") and any((t_.callee.res or "").endswith("HpoTermInternal::children") for fb_ in prog.family(x) for _, t_ in fb_.calls())]
+                if own_ and nm == "set_default_categories":
+                    # "building fails with an error when one of the two root terms is missing": in that private code BOTH root lookups are keyed by
+                    # a constant and stand on every path that succeeds.  A root that is only looked up when it is met in the data (`if child ==
+                    # PHENOTYPE_ID { get(child)? }`) is not reported missing when it is missing.
+                    for xb_ in own_:
+                        lk_ = []
+                        for bi_, t_ in xb_.calls():
+                            r_ = t_.callee.res or ""
+                            if (r_.startswith("ontology::termarena::Arena::get") or r_ == ONT + "hpo") and len(t_.args) == 2 and "unchecked" not in r_:
+                                k_ = t_.args[1]
+                                const_key = k_.kind == "const" or any(a_[0] == "const" for a_ in pvn.of_operand(xb_, k_)) and not any(a_[0] == "call" and a_[1].endswith("::next") for a_ in pvn.of_operand(xb_, k_))
+                                lk_.append((bi_, t_, const_key, all(xb_.dominates(bi_, e_) for e_ in xb_.exits if e_ not in error_blocks_(xb_))))
+                        consts_ok = [x for x in lk_ if x[2] and x[3]]
+                        data_keyed = [x for x in lk_ if not x[2] and not x[3]]
+                        if consts_ok and data_keyed:
+                            ck.ob("DOM", "build_with_defaults/root-lookups/" + xb_.short, False, "%s looks one root term up unconditionally (line %s) but another one only where the data leads to it (line %s, key read from the ontology): a missing root term is then not an error" % (xb_.short, consts_ok[0][1].line, data_keyed[0][1].line), where=xb_.where(data_keyed[0][1].line))
+                        elif len(consts_ok) >= 2:
+                            ck.ob("DOM", "build_with_defaults/root-lookups/" + xb_.short, True, "%s looks %d constant-keyed root terms up on every path that succeeds" % (xb_.short, len(consts_ok)), where=xb_.where())
                 if own_:
                     ck.undecided("DOM", "build_with_defaults/" + nm, "build_with_defaults does not call %s: the default groups are computed by private code of its own (%s), which the rules over %s do not read" % (nm, own_[0].short, nm), where=bd.where())
                     continue
